@@ -278,7 +278,7 @@ func genEvent(r *vh.Rng, st int, started bool, storedID string, payCounter *int,
 //
 //	SendProlongationRequest timer is armed with duration zero.
 func immediateTimer(b ship.VerifSnapshot, e *event) bool {
-	return b.State == 11 && (e.kind == "timeout" || e.kind == "selftimeout") && b.TimerRunning && b.TimerType == 1 && !e.allow
+	return b.State == 11 && (e.kind == "timeout" || e.kind == "selftimeout") && b.TimerRunning && b.TimerType == 1 && !e.allow && b.LastWaiting == 0
 }
 
 // settle waits for a self-firing timer: first for any observation to appear, then for the
@@ -601,6 +601,13 @@ func runScenario(r *vh.Rng, maxLen int, script *scriptT) *scenario {
 		for k := 0; k < len(evs); k++ {
 			e := evs[k]
 			before := conn.VerifSnapshot()
+			// pending-listen timeout after a SendProlongationRequest timer, waiting not allowed and
+			// no waiting value received: the code arms the reply timer with 66000 ns, which would
+			// expire by itself within the same event. Real time would then decide what belongs
+			// to which event, so this corner is only exercised with a received waiting value.
+			if script == nil && before.State == 11 && e.kind == "timeout" && before.TimerRunning && before.TimerType == 1 && !e.allow && before.LastWaiting == 0 {
+				e.allow = true
+			}
 			env.mu.Lock()
 			env.paired, env.auto, env.allow = e.paired, e.auto, e.allow
 			if e.wf >= 0 && !env.closed {
